@@ -244,13 +244,22 @@ func checkC01(p *core.Program, r *core.Report) {
 			r.Check(ok, "R1", core.FuncName(w.Fn)+"->run."+fname, p.Pos(w.Instr.Pos()), "lifecycle owner", "run."+fname+" written outside Exit/SetStatus/NewRun/ReadRun")
 		}
 	}
+	// the engine's state-machine functions, plus unexported helpers only they call (a helper extracted from an owner
+	// acts on its behalf; R2/R8 still see the store through the call)
+	smOwners := map[*ssa.Function]bool{}
+	for _, n := range []string{"continueUntilWait", "visitNode", "tryToResume"} {
+		if f := p.Method("flows/engine", "session", n); f != nil {
+			smOwners[f] = true
+		}
+	}
+	smOwners = p.HelperClosure(smOwners)
 	for _, w := range p.FieldWrites(e.statusField) {
 		n := rootFn(w.Fn).Name()
 		s, isC := "", false
 		if w.Val != nil {
 			s, isC = core.ConstString(w.Val)
 		}
-		owner := n == "continueUntilWait" || n == "visitNode" || n == "tryToResume" || n == "NewSession" || n == "readSession" || n == "newSession"
+		owner := smOwners[rootFn(w.Fn)] || n == "NewSession" || n == "readSession" || n == "newSession"
 		if n == "readSession" || n == "NewSession" || n == "newSession" {
 			r.Check(owner, "R1", core.FuncName(w.Fn)+"->session.status", p.Pos(w.Instr.Pos()), "constructor/reader", "")
 			continue
